@@ -443,6 +443,49 @@ func c08Scenarios(tier string) []*world.Scenario {
 			}
 		}
 	}
+	// large requests at production buffer sizes: a SET whose value has S bytes, followed by a GET, cut once or twice at
+	// offsets around the places where the inbound ring (1 KiB when fresh, doubling, 25% steps from 4 KiB) has to grow:
+	// after the header, 1 KiB / 2 KiB into the value, in its middle, just before / on / after the request boundary
+	{
+		sizes := []int{1500, 3000, 9000}
+		if thorough {
+			sizes = []int{1100, 1500, 2100, 3000, 4200, 5000, 9000, 20000, 70000}
+		}
+		for _, S := range sizes {
+			big := SetReq(keysA[1], strings.Repeat("0123456789abcdef", S/16+1)[:S])
+			st := c08stream{fmt.Sprintf("set-%dB,get", S), []Req{big, GetReq(keysB[2])}}
+			L := len(big.Bytes)
+			h := L - S - 2
+			offs := []int{1, h - 1, h, h + 1, h + 1000, h + 1023, h + 1024, h + 1025, h + 2047, h + 2048, h + S/2, L - 3, L - 1, L, L + 1}
+			var ok []int
+			for _, o := range offs {
+				if o > 0 && o < L+len(st.reqs[1].Bytes) && (len(ok) == 0 || o > ok[len(ok)-1]) {
+					ok = append(ok, o)
+				}
+			}
+			for _, cap := range []int{4096, 65536} {
+				for i, c1 := range ok {
+					sc := c08Scenario(st, []int{c1}, cap, fmt.Sprintf("cut%d", c1))
+					sc.Family, sc.Horizon = "large-request", 20000
+					out = append(out, sc)
+					for _, c2 := range ok[i+1:] {
+						sc := c08Scenario(st, []int{c1, c2}, cap, fmt.Sprintf("cut%d,%d", c1, c2))
+						sc.Family, sc.Horizon = "large-request", 20000
+						out = append(out, sc)
+						if thorough && cap == 65536 {
+							for _, c3 := range ok {
+								if c3 > c2 {
+									sc := c08Scenario(st, []int{c1, c2, c3}, cap, fmt.Sprintf("cut%d,%d,%d", c1, c2, c3))
+									sc.Family, sc.Horizon = "large-request", 20000
+									out = append(out, sc)
+								}
+							}
+						}
+					}
+				}
+			}
+		}
+	}
 	// another client died inside a request (its prefix parked in the inbound buffer) before this client's stream arrives
 	{
 		ab := world.Cmd("set", keysA[0], strings.Repeat("A", 34))
